@@ -59,6 +59,7 @@ func isCallWith(names []string, pred func(args []ssa.Value) bool) func(ssa.Instr
 
 func runC35(c *Ctx) {
 	w := c.W
+	c35Extras3(c)
 	put, get := w.Fn(fnLRUPut), w.Fn(fnLRUGet)
 	if put == nil || get == nil {
 		c.Undecided("R-CUT", fnLRUPut, "anchor", "-", "Put/Get not found")
